@@ -131,6 +131,7 @@ impl Spec {
                             When::WakePlus1 => w + 1,
                             When::WakePlus700 => w + 700,
                             When::Far => w + FAR_MS,
+                            When::Past => return if self.live.is_empty() { None } else { Some(self.now - 300) },
                             When::Now => unreachable!(),
                         }
                     }
@@ -166,7 +167,8 @@ impl Spec {
     /// Check the observation of one step against the statements and advance.
     pub fn apply(&mut self, step: &Step, obs: &Obs, post: &Post) -> Vec<Breach> {
         let mut out = Vec::new();
-        debug_assert!(step.now >= self.now);
+        let clock_before = self.now;
+        debug_assert!(step.now >= self.now || matches!(step.act, Act::Poll { when: When::Past, .. }));
         self.now = step.now;
         let tcp = self.tcp;
         match (&step.act, obs) {
@@ -444,6 +446,8 @@ impl Spec {
         if post.remote_addr != self.remote_addr.map(peer) || post.local_addr != local_addr() || post.tcp != self.tcp {
             out.push(breach("C18", "agent-identity", "transport() / local_addr() / remote_addr() are not what the agent was built with", format!("tcp={} {} remote {:?}", self.tcp, local_addr(), self.remote_addr.map(peer)), format!("tcp={} {} remote {:?}", post.tcp, post.local_addr, post.remote_addr)));
         }
+        // a poll dated before the previous call does not turn the model's clock back
+        self.now = self.now.max(clock_before);
         if !out.is_empty() {
             self.diverged = true;
         }
